@@ -407,7 +407,11 @@ fn literals_for(v: &TT) -> Vec<(&'static str, String)> {
         ("complex", _) => vec![("literal", "2.5im".into()), ("int-imag-literal", "2im".into())],
         ("bool", _) => vec![("literal", "true".into())],
         ("duration", _) => vec![("literal", "10ns".into())],
-        ("bit", Some(n)) => vec![("literal", format!("\"{}\"", "01".repeat(n as usize / 2)))],
+        ("bit", Some(n)) => {
+            let bits = "01".repeat(n as usize / 2);
+            let (a, b) = bits.split_at(bits.len() / 2);
+            vec![("literal", format!("\"{bits}\"")), ("underscored-literal", format!("'{a}_{b}'")), ("twice-underscored-literal", format!("\"{a}_{}_{}\"", &b[..1], &b[1..]))]
+        }
         _ => vec![],
     }
 }
@@ -669,7 +673,7 @@ pub fn run_c08(ctx: &RunCtx) {
         ctx.mark_exhaustive(format!("arithmetic matrix: {} (operator, left type, right type) programs", progs.len()));
     }
     // typed graphs of generated programs
-    let n = ctx.pick(150_000u64, 5_000_000u64);
+    let n = ctx.pick(300_000u64, 5_000_000u64);
     for (name, profile) in [("plain", crate::semgen::Profile::plain()), ("faulty", crate::semgen::Profile::faulty())] {
         ctx.random(&format!("typed-graph-{name}"), n, 1200, |src| {
             let prog = crate::semgen::gen_program(src, &profile);
@@ -1005,6 +1009,17 @@ pub fn run_c09(ctx: &RunCtx) {
         ("qubit-negative", "qubit[-2] v;".into()),
         ("qubit-non-const", "int m = 3; qubit[m] v;".into()),
         ("bit-non-const", "int m = 3; bit[m] v;".into()),
+        ("non-const-int128-literal-init", "int[128] m = 4; int[m] v;".into()),
+        ("non-const-int128-bit", "int[128] m = 4; m = 7; bit[m] v;".into()),
+        ("non-const-int128-qubit", "int[128] m = 4; qubit[m] v;".into()),
+        ("non-const-uint128", "uint[128] m = 4; uint[m] v;".into()),
+        ("non-const-int64", "int[64] m = 4; float[m] v;".into()),
+        ("non-const-uint", "uint m = 4; angle[m] v;".into()),
+        ("non-const-def-param", "int[128] m = 4; def f(int[m] v) { }".into()),
+        ("non-const-def-return", "int[128] m = 4; def v() -> int[m] { return 1; }".into()),
+        ("non-const-loop-variable", "for int[128] m in [1:4] { int[m] v; }".into()),
+        ("non-const-parameter", "def f(int[128] m) { int[m] v; }".into()),
+        ("input-variable", "input int[128] m; int[m] v;".into()),
         ("gate-parameter-as-width", "gate g(n) q { int[n] v; }".into()),
         ("call", "def f() -> int { return 1; } int[f()] v;".into()),
     ];
